@@ -155,7 +155,11 @@ def replay(prop, name, r):
     rec = {'scenario': scn, 'observed': o}
     holds = None
     C18_FLAGS = ('exception_false_and_complete', 'exception_true_and_complete', 'base/incomplete')
-    if '/missing/' in name and scn['unit'] == 'W_in':
+    if 'original_runs_outside_the_interception_context' in name:
+        holds = bool(o['body_in_interception']) and not any(o['body_in_interception'])
+    elif 'body_runs_inside_the_interception_context' in name:
+        holds = bool(o['body_in_interception']) and all(o['body_in_interception'])
+    elif '/missing/' in name and scn['unit'] == 'W_in':
         holds = missing_policy(o, scn['config'])
     elif 'body_exactly_once' in name or 'result_is_body_result' in name or 'body_exception_or_callee_interrupt' in name or 'must_return_or_raise' in name:
         # the native oracle must be the clause that was refuted, never a different clause of the same property
